@@ -235,12 +235,16 @@ class Plan:
         elif t == "persist":
             self.kind = self.spec[1]
             self.label = self.spec[2]
+        elif t == "evict":
+            # restricted re-entrancy: the pre hook at event index spec[1] detaches another child of its
+            # parent argument (a bounded parent evicting its oldest child); it never raises
+            self.evict_at = self.spec[1]
         elif t != "none":
             raise ValueError(spec)
 
     def fires(self, i, kind, n):
         t = self.t
-        if t == "none":
+        if t == "none" or t == "evict":
             return False
         if t == "persist":
             return kind == self.kind and (self.label is None or self.label == n)
@@ -259,6 +263,7 @@ class Rec:
         self.events = []
         self.snaps = []
         self.faults = []
+        self.evicted = []
         self.plan = NOPLAN
         self.snaps_on = True
 
@@ -282,6 +287,7 @@ class Rec:
         self.events = []
         self.snaps = []
         self.faults = []
+        self.evicted = []
         self.plan = plan
         self.snaps_on = snaps_on
 
@@ -295,6 +301,12 @@ class Rec:
         snap = self.snapshot() if self.snaps_on else None
         self.events.append((kind, nl, al))
         self.snaps.append(snap)
+        if self.plan.t == "evict" and i == self.plan.evict_at and kind in ("pre_attach", "pre_detach") and isinstance(al, int) and isinstance(nl, int):
+            now = snap if snap is not None else self.snapshot()
+            victims = [c for c in now[al][1] if c != nl and isinstance(c, int)]
+            if victims:
+                self.evicted.append((i, victims[0]))
+                self.nodes[victims[0]].parent = None
         if self.plan.fires(i, kind, nl):
             self.faults.append((i, kind, nl))
             raise Injected("%s@%d" % (kind, i))
@@ -380,7 +392,7 @@ def outcome_of(exc):
 
 
 class Exec:
-    __slots__ = ("family", "call", "planspec", "pre", "post", "outcome", "events", "snaps", "faults", "excrepr")
+    __slots__ = ("family", "call", "planspec", "pre", "post", "outcome", "events", "snaps", "faults", "excrepr", "evicted")
 
     def case(self):
         return {
@@ -422,6 +434,7 @@ def run_call(rec, family, call, plan, snaps_on=True):
     ex.events = rec.events
     ex.snaps = rec.snaps
     ex.faults = rec.faults
+    ex.evicted = rec.evicted
     ex.post = rec.snapshot()
     return ex
 
@@ -460,6 +473,8 @@ def mon_c01(ctx, ex):
 
 def mon_c02(ctx, ex):
     """Outcome class and post-state equal the reference model (fault-free)."""
+    if ex.planspec[0] == "evict":
+        return mon_c02_evict(ctx, ex)
     if ex.faults or ex.planspec[0] != "none":
         return True
     fam = base_family(ex.family)
@@ -489,6 +504,34 @@ def mon_c02(ctx, ex):
                 observed=_jsonable(ex.post),
             )
             return False
+    return True
+
+
+def mon_c02_evict(ctx, ex):
+    """Parent assignment whose pre hook detaches another child of its parent argument: the effect is the
+    composition of the nested call (at the hook's point in the sequence) and the outer call."""
+    if ex.call[0] != "setparent" or not ex.evicted or not isinstance(ex.call[2], (int, type(None))):
+        return True
+    fam = base_family(ex.family)
+    st = M.ch_of(ex.pre)
+    n, q = ex.call[1], ex.call[2]
+    at, victim = ex.evicted[0]
+    kind = ex.events[at][0]
+    out0, _, _ = M.model_call(st, ex.call, fam)
+    if out0 != "ok":
+        return True
+    ctx.count("mon.C02.reentrant")
+    if kind == "pre_detach":
+        _, st, _ = M.model_call(st, ("setparent", victim, None), fam)
+        _, st, _ = M.model_call(st, ex.call, fam)
+    else:
+        _, st, _ = M.model_call(st, ("setparent", n, None), fam)
+        _, st, _ = M.model_call(st, ("setparent", victim, None), fam)
+        _, st, _ = M.model_call(st, ("setparent", n, q), fam)
+    if ex.outcome != "returned" or ex.post != M.snap_of(st):
+        ctx.violation("C02/effect/setparent/reentrant-hook", "model-effect", ex.case(), expected=_jsonable(M.snap_of(st)),
+                      observed={"post": _jsonable(ex.post), "outcome": ex.outcome, "exc": ex.excrepr}, note="pre hook detached sibling %d at event %d" % (victim, at))
+        return False
     return True
 
 
@@ -602,6 +645,8 @@ def mon_c16(ctx, ex):
     sn = ex.snaps
     if sn and sn[0] is None:
         return True
+    if ex.planspec[0] == "evict":
+        return mon_c16_observations(ctx, ex)
     ctx.count("mon.C16.automaton")
     faulted = {i for i, _, _ in ex.faults}
     m = len(ev)
@@ -718,6 +763,28 @@ def mon_c16(ctx, ex):
             return False
         if ex.call[0] == "setparent" and ex.faults[0][1] in POST_KINDS:
             ctx.count("C16.R5.post_fault_kept")
+    return True
+
+
+def mon_c16_observations(ctx, ex):
+    """R2 only (what each hook can observe), for calls whose pre hook restructures its parent re-entrantly."""
+    if not ex.evicted:
+        return True
+    ctx.count("mon.C16.reentrant_observations")
+    for i, ((kind, n, arg), here) in enumerate(zip(ex.events, ex.snaps)):
+        if not isinstance(n, int) or not isinstance(arg, int):
+            continue
+        prob = None
+        if kind == "pre_detach" and (here[n][0] != arg or n not in here[arg][1]):
+            prob = "pre_detach: node still child of the old parent"
+        elif kind in ("post_detach", "pre_attach") and (here[n][0] is not None or any(n in cs for _, cs in here)):
+            prob = "%s: node is a root and in no children tuple" % kind
+        elif kind == "post_attach" and (here[n][0] != arg or not here[arg][1] or here[arg][1][-1] != n):
+            prob = "post_attach: node is the last child of the new parent"
+        if prob:
+            ctx.violation("C16/R2-%s/reentrant-hook/%s" % (kind, ex.call[0]), "hook-observation", ex.case(), expected=prob,
+                          observed={"events": _jsonable(ex.events[:40]), "at": i, "snap": _jsonable(here), "evicted": _jsonable(ex.evicted)})
+            return False
     return True
 
 
